@@ -10,7 +10,7 @@ BOUNDS = {
     "quick": "value-returning family: every transform of C09's list (splits, swap, flatten, unflatten, merge, tensor updateCoords/updatePayloads, deepcopy, swizzle on a "
              "2x2 box) plus fiber +, * and Fiber.copy/deepcopy on skeletons [2,1], [1,1], [1,0], 2: operand snapshot (tree, rank lists, ids, shape, default, formats) "
              "unchanged; no Fiber/Payload/Rank/RankAttrs object shared; mutation of every leaf box of one side invisible to the other. Read-only family: getPayload, "
-             "iterators, co-iteration, ==, isEmpty, countValues, shape queries, fiber2dict, Format.get*, str/repr/format (coordinates and values in 0..1: formatting realises the symbols, so the solver enumerates a finite model set)",
+             "iterators, co-iteration, ==, isEmpty, countValues, shape queries, fiber2dict, Format.get*, str/repr/format (coordinates and values in 0..1: formatting realises the symbols, so the solver enumerates a finite model set); identity swizzle, unflattenRanks of a flattened operand, Fiber.copy(preserve_owner=False) / Tensor.fromFiber of an owned root with owner identities compared, read-only queries on a tensor created empty and grown point by point (recorded rank shapes compared, growth afterwards visible)",
     "thorough": "adds [2,2], [0,1], depth-3 [[1]], all split kinds with halos, 2x2x2 swizzles",
 }
 OUTSIDE = ("image rendering (TensorImage/TreeImage/UncompressedImage draw through PIL/cv2 C code: pixel buffers are not symbolic; only the tree-side purity of the "
